@@ -224,7 +224,7 @@ func vwBuild(shape []vwSegShape, splitMask int) *vwWorld {
 	k = 0
 	for j, s := range shape {
 		sg := vwSeg{sh: s, first: len(w.hops)}
-		sg.ts = verif.NondetU32("ts")
+		sg.ts = vwTS()
 		for i := 0; i < s.n; i++ {
 			n := w.nodes[k+i]
 			tin, teg := n.inIf, n.outIf // travel ingress / egress of this hop field
@@ -237,7 +237,7 @@ func vwBuild(shape []vwSegShape, splitMask int) *vwWorld {
 			if i == s.n-1 && j < len(shape)-1 {
 				teg = verif.NondetU16("unused")
 			}
-			h := vwHop{node: k + i, seg: j, exp: verif.NondetU8("exp")}
+			h := vwHop{node: k + i, seg: j, exp: vwExp(len(w.hops), k+i)}
 			if s.cons {
 				h.consIn, h.consEg = tin, teg
 			} else {
@@ -269,6 +269,28 @@ func vwBuild(shape []vwSegShape, splitMask int) *vwWorld {
 		k += s.n - 1
 	}
 	return w
+}
+
+// vwExp / vwTS: ExpTime of hop field number k and timestamp of a segment. Symbolic (8 bit / 32 bit)
+// unless the instance sets the parameter cexp=1: then ExpTime values are concrete and pairwise
+// different and the timestamp lies in an 18 h window (bound used by C10, whose solver queries
+// otherwise take seconds each because of the expiry arithmetic accumulated in the path condition).
+func vwExp(k, node int) uint8 {
+	if verif.HasParam("cexp") && verif.Param("cexp") == 1 {
+		if verif.HasParam("cause") && verif.Param("cause") == 3 && verif.Param("at") == node {
+			// C10, expired-hop cause: the hop fields of that AS are the first to expire
+			return 5
+		}
+		return uint8(40 + 23*k)
+	}
+	return verif.NondetU8("exp")
+}
+
+func vwTS() uint32 {
+	if verif.HasParam("cexp") && verif.Param("cexp") == 1 {
+		return 1700000000 + uint32(verif.NondetU16("ts"))
+	}
+	return verif.NondetU32("ts")
 }
 
 func be64w(b []byte, o int) uint64 {
